@@ -85,7 +85,8 @@ class ServiceAccessPoint(object):
             return insertable
 
     def remove_socket(self, socket):
-        assert socket.addr == self.addr
+        # a concurrent link shutdown may have unbound the socket already
+        assert socket.addr in (self.addr, None)
         socket.close()
         with self.llc.lock:
             try:
@@ -833,7 +834,14 @@ class LogicalLinkController(object):
             raise err.Error(errno.EOPNOTSUPP)
         while True:
             client = socket.accept()
-            self.sap[client.addr].insert_socket(client)
+            with self.lock:
+                addr = client.addr
+                sap = self.sap[addr] if addr is not None else None
+                if sap is None:  # link terminated in the meantime
+                    client.bind(None)
+                    client.close()
+                    raise err.Error(errno.ESHUTDOWN)
+                sap.insert_socket(client)
             log.debug("new data link connection ({0} <=== {1})"
                       .format(client.addr, client.peer))
             if client.send_miu > self.cfg['send-miu']:
@@ -896,8 +904,13 @@ class LogicalLinkController(object):
     def close(self, socket):
         if not isinstance(socket, tco.TransmissionControlObject):
             raise err.Error(errno.ENOTSOCK)
-        if socket.is_bound:
-            self.sap[socket.addr].remove_socket(socket)
+        with self.lock:
+            # the link thread unbinds sockets and removes access points
+            # when the link terminates
+            addr = socket.addr
+            sap = self.sap[addr] if addr is not None else None
+        if sap is not None:
+            sap.remove_socket(socket)
         else:
             socket.close()
 
